@@ -225,6 +225,34 @@ func TestC15(t *testing.T) {
 		pts += len(inRefund)
 		r.Extra["crash_points_inside_refund"] = len(inRefund)
 	}
+	// the maker's Lightning node fails the creation of the claim invoice once (a transient error); crash at every
+	// crossing of that history
+	{
+		chains := []string{"btc"}
+		if r.Thorough() {
+			chains = []string{"btc", "lbtc"}
+		}
+		pts += lcSweep(r, chains, "claiminvoicefail", false, func(h *lcHist) {
+			// the claim invoice is the maker's first invoice in a swap-in and its second (after the fee invoice) in a swap-out
+			want, n := 1, 0
+			if h.c.typ == "out" {
+				want = 2
+			}
+			var mu sync.Mutex
+			h.p.maker().Fault = func(op string) error {
+				if op != "ln.getpayreq" {
+					return nil
+				}
+				mu.Lock()
+				defer mu.Unlock()
+				n++
+				if n == want {
+					return fmt.Errorf("injected: lightning node temporarily unavailable")
+				}
+				return nil
+			}
+		}, func(h *lcHist) { c15Judge(r, h) })
+	}
 	if r.Thorough() {
 		// the same enumeration over other worlds (amounts, keys, funding layouts), and over the histories in which the
 		// claim payment fails (cooperative close path) or the claim broadcast fails 30 times
